@@ -19,14 +19,23 @@
    including the out-of-band copy of an open block that straddles the storage end, and the
    ring-level model never faults ([C02_ring_writer_total]).
 
+   End to end ([C02_stream_end_to_end]): feed ANY prefix of the byte stream such a writer history
+   produced, cut into ANY pieces, to ANY sequence of decoder calls (model [dec_call_res] of
+   mpt_decode_cobs*, any fragment geometry): the messages delivered are a prefix of the messages
+   sent, in order — nothing duplicated, merged, reordered or invented.  (That everything arrives
+   once all bytes were fed and enough space is provided is proved per frame at loop level,
+   [C02_stream_integrity_flat], not for call histories.)
+
    What is modelled and compared but NOT proved (hence "partial" overall): the ring mechanics
-   of mpt_queue_recv / mpt_queue_shift (prefix space after MissingBuffer, cropping).  They are
+   of mpt_queue_recv / mpt_queue_shift (prefix space after MissingBuffer, cropping) around the
+   decoder calls.  They are
    decided against the specification [sspec_run] — received = sent, in order, nothing lost,
    duplicated or merged, and everything arrives after a drain — by the correspondence run on
    rings of many capacities and offsets with arbitrary cuts of the wire. *)
 From MptV Require Import Base.Mem Cobs.CobsModel Cobs.DecModel Cobs.EncProofs Cobs.EncTheorems
   Cobs.DecProofs Cobs.DecComplete Cobs.StreamSpec Cobs.StreamProofs
-  C13.QueueModel Cobs.QueueCodec Cobs.QueuePushProofs Cobs.QueuePushTheorem Cobs.WriterHistory.
+  C13.QueueModel Cobs.QueueCodec Cobs.QueuePushProofs Cobs.QueuePushTheorem Cobs.WriterHistory
+  Cobs.DecCall Cobs.DecHistory Cobs.EndToEnd.
 
 Theorem C02_wire_splits_into_frames :
   forall v ms wire, frames_of v ms wire ->
@@ -79,6 +88,23 @@ Theorem C02_ring_writer_stream :
               (wh_done s) bodies.
 Proof. exact writer_history_delivered. Qed.
 
+(* writer on a ring, reader by decoder calls on a flat growing buffer, any cut of the stream *)
+Theorem C02_stream_end_to_end :
+  forall v wbuf woff wops ws, variant_ok v -> woff < length wbuf ->
+    wh_run v (wh_init wbuf woff) wops = Some ws -> wh_cur ws = [] -> escr (eq_st (wh_e ws)) = 0 ->
+    forall st0 buf0 rops n, cinv v [] st0 buf0 ->
+      skipn (dcurr st0) buf0 ++ concat (map fed rops) = firstn n (wh_sent ws ++ contents (eq_q (wh_e ws))) ->
+      let rs := hrun v (mkhs st0 buf0 [] false) rops in
+      hs_msgs rs = firstn (length (hs_msgs rs)) (wh_done ws).
+Proof. exact stream_end_to_end. Qed.
+
+(* non-vacuity of the composition: the stream of the ring example below, fed in two pieces *)
+Example C02_end_to_end_example :
+  let rs := hrun v_zpe_r (mkhs (dinit 4) [238;238;238;238; 3;1;2;3;0; 232;4]%N [] false)
+              [HCall [11] []; HCall [11] []; HFeed [5;6;7;8;9;10;11;12;0]%N; HCall [20] []; HCall [20] []] in
+  hs_stop rs = false /\ hs_msgs rs = [[1;2;0;3]; [4;5;6;7;8;9;10;11;0;0;12]]%N.
+Proof. vm_compute. auto. Qed.
+
 (* non-vacuity: a history on a 12-byte ring starting at offset 7 (windows wrap, the ring is
    re-aligned, the transport takes bytes in between) *)
 Example C02_ring_writer_example :
@@ -111,3 +137,4 @@ Print Assumptions C02_queue_push_refines.
 Print Assumptions C02_ring_writer_invariant.
 Print Assumptions C02_ring_writer_total.
 Print Assumptions C02_ring_writer_stream.
+Print Assumptions C02_stream_end_to_end.
